@@ -532,6 +532,18 @@ class Body:
             return ds[0]
         return None
 
+    def binding_expr(self, local, depth=12):
+        """The expression a local was bound to, ignoring later stores THROUGH it (`(*_10).f = ..` is recorded as a partial
+        definition of _10, which makes `unique_def` give up; for a reference that is the wrong answer: the reference itself
+        is still the one value it was bound to)."""
+        ds = [d for d in self.defs().get(local, []) if d[0] in ("assign", "call")]
+        if len(ds) != 1:
+            return ("local", local)
+        if ds[0][0] == "call":
+            c = ds[0][2]
+            return ("call", c.callee, [self.expr(a, depth - 1) for a in c.args], c)
+        return self.rv_expr(ds[0][3], depth - 1)
+
     # ------------------------------------------------------------ expression trees
     def expr(self, op, depth=12):
         """Expand an operand into a nested tuple through unique definitions of temporaries.
